@@ -359,9 +359,10 @@ def corpus_jobs(repo):
 # hand-written regression decks, run first by the tie and the sweep: each
 # reaches a piece of state or an ordering the generators reach only sometimes
 REGRESSION = [
-    # an empty filler cell referenced twice: convert_cellref caches None, which
-    # is not a cache hit, so the cell is converted (and the counter advanced)
-    # again; the written file holds "INTE 1 None" (DESIGN 8 #7)
+    # an empty filler cell referenced twice: convert_cellref allocates a
+    # stand-in empty virtual volume, caches it (second reference = cache hit)
+    # and remove_empty_volumes deletes it with the INTE volumes that use it
+    # (before fix 3f9f4fd: a None operand, not cached; DESIGN 8 #7)
     ('empty-cellref-twice', """empty filler used twice
 1 0 -1 fill=1 imp:n=1
 2 0 1 -3 fill=1 imp:n=1
